@@ -164,7 +164,7 @@ def check_props(prop_id, timeout=900):
     """compile Props/<id>.v; returns dict(ok, theorems, closed, axioms, log)"""
     path = os.path.join(COQ, "Props", prop_id + ".v")
     src = open(path).read()
-    theorems = re.findall(r"^(?:Theorem|Lemma)\s+(\w+)", src, re.M)
+    theorems = re.findall(r"^\s*(?:Theorem|Lemma)\s+(\w+)", src, re.M)
     ok, out = coqc(path, timeout)
     closed = out.count("Closed under the global context")
     axioms = []
@@ -329,7 +329,7 @@ class Check:
                 src = open(os.path.join(COQ, "Props", self.id + ".v")).read().splitlines()
                 ln = int(m.group(2))
                 for i in range(ln - 1, -1, -1):
-                    mm = re.match(r"^(?:Theorem|Lemma|Example)\s+(\w+)", src[i])
+                    mm = re.match(r"^\s*(?:Theorem|Lemma|Example)\s+(\w+)", src[i])
                     if mm:
                         where = mm.group(1)
                         break
